@@ -28,6 +28,7 @@ def shards(tier, seed):
 	n = 16 if tier == 'quick' else 48
 	out = [dict(name=f'var-{i}', kind='var', sub=i, ngenomes=20 if tier == 'quick' else 80, nvar=50 if tier == 'quick' else 120) for i in range(n)]
 	out.append(dict(name='orient-exh', kind='orient', ngenomes=6 if tier == 'quick' else 40))
+	out.append(dict(name='chromosome', kind='chrom', specs=[(11, 'ATGAC'), (6, 'AT')] if tier == 'quick' else [(11, 'ATGAC'), (6, 'AT'), (16, 'ACG'), (4, 'GATC')], top=21 if tier == 'quick' else 22, nvar=5 if tier == 'quick' else 16))
 	out.append(dict(name='cli', kind='cli', ngenomes=3 if tier == 'quick' else 15))
 	out.append(dict(name='asan-var', kind='var', sub=900, ngenomes=4 if tier == 'quick' else 20, nvar=12, sanitizer='asan'))
 	return out
@@ -135,6 +136,28 @@ def run_shard(sh, ctx):
 	rng = random.Random(f'C06-{ctx.seed}-{sh.get("sub", sh["name"])}')
 	if sh['kind'] == 'cli':
 		return run_cli(sh, ctx, rng)
+	if sh['kind'] == 'chrom':
+		# a genome with one chromosome-sized contig (occurrences planted around every power-of-two position and every multiple of
+		# 2^20, on either strand) and two small ones: content-equivalent files - reverse-complemented, reordered, re-cased, re-wrapped,
+		# compressed - must all give the signature of the reference definition
+		from vf.props import _blocks
+		for g, (k, pf) in enumerate(sh['specs']):
+			prefix = pf.encode()
+			ks = KmerSpec(k, prefix)
+			tl = k + len(prefix)
+			offs = {}
+			big, planted = _blocks.block_sequence(rng, k, prefix, sh['top'], lambda bi: offs.setdefault(bi, rng.randint(-tl - 2, 2)))
+			contigs = [big, bytes(rng.choice(b'ACGT') for _ in range(300)), prefix + bytes(rng.choice(b'ACGT') for _ in range(k))]
+			exp = S.signature(k, prefix, contigs)
+			ctx.count('chromosome_sized_contigs'); ctx.count('block_boundary_occurrences_planted', planted)
+			for v in range(sh['nvar']):
+				cs, lay = variant(rng, contigs)
+				if v == 0:
+					lay.update(orient=[False] * 3, order=[0, 1, 2], case='upper'); cs = list(contigs)
+				elif v == 1:
+					lay.update(orient=[True, False, False], order=[0, 1, 2], case='upper'); cs = [S.revcomp(contigs[0]), contigs[1], contigs[2]]
+				check_variant(ctx, ks, k, prefix, [c[:200] for c in contigs], exp, cs, lay, 9000 + g, v)
+		return
 	for g in range(sh['ngenomes']):
 		k = rng.choice([3, 4, 5, 6, 8, 11, 12, 16])
 		prefix = rng.choice([b'AT', b'AC', b'ATG', b'GATC', b'A', b'CG', b'TTA'])
@@ -218,7 +241,7 @@ def run_cli(sh, ctx, rng):
 def finalize(merged, tier, seed, inconclusive):
 	c = merged['counters']
 	need = ['width:1', 'width:0', 'width:61', 'eol:CRLF', 'eol:LF', 'case:mixed', 'case:lower', 'compression_arg:explicit', 'extension_disagrees_with_content',
-	        'genomes_where_concatenation_would_differ', 'orientation_order_exhaustive_genomes', 'cli_commands', 'broken_files_raised', 'gz:multi']
+	        'genomes_where_concatenation_would_differ', 'orientation_order_exhaustive_genomes', 'cli_commands', 'broken_files_raised', 'gz:multi', 'chromosome_sized_contigs']
 	for n in need:
 		if c.get(n, 0) == 0:
 			inconclusive.append(f'class never observed: {n}')
